@@ -171,22 +171,35 @@ func (u *Unit) evalClauseVal(c *Clause, st, old *State, local map[string]Val, rv
 
 // lookupLocal finds the current value of a local (or parameter) by name.
 func (u *Unit) lookupLocal(st *State, name string, paramOnly bool) (Val, bool) {
-	var best *types.Var
-	for v := range st.env {
-		if v.Name() != name {
-			continue
+	// inside a helper that is executed in place the helper's names come first, then those of the functions it was
+	// reached through, outermost last (the same order in which localsParams offered them to the clause)
+	var decls []*ast.FuncDecl
+	for i := len(u.spliceDecls) - 1; i >= 0; i-- {
+		decls = append(decls, u.spliceDecls[i])
+	}
+	if u.fi != nil {
+		decls = append(decls, u.fi.Decl)
+	} else {
+		decls = append(decls, nil)
+	}
+	for _, d := range decls {
+		var best *types.Var
+		for v := range st.env {
+			if v.Name() != name {
+				continue
+			}
+			if d != nil && (v.Pos() < d.Pos() || v.Pos() > d.End()) {
+				continue
+			}
+			if best == nil || v.Pos() > best.Pos() {
+				best = v
+			}
 		}
-		if u.fi != nil && (v.Pos() < u.fi.Decl.Pos() || v.Pos() > u.fi.Decl.End()) {
-			continue
-		}
-		if best == nil || v.Pos() > best.Pos() {
-			best = v
+		if best != nil {
+			return st.env[best], true
 		}
 	}
-	if best == nil {
-		return Val{}, false
-	}
-	return st.env[best], true
+	return Val{}, false
 }
 
 func (u *Unit) evalSpecBody(sf *SpecFn, info *types.Info, bind, oldBind map[*types.Var]Val, st, old *State) Val {
